@@ -70,7 +70,7 @@ func (c05) Run(c *Case, st *Stats) []Violation {
 	}
 	if n >= S {
 		if len(acts) > n {
-			add("surplus", fmt.Sprintf("%d actions for %d snapshots", len(acts), n))
+			add(fmt.Sprintf("surplus+%d", len(acts)-n), fmt.Sprintf("%d actions for %d snapshots", len(acts), n))
 		} else if len(acts) < n {
 			add("missing", fmt.Sprintf("%d actions for %d snapshots", len(acts), n))
 		}
